@@ -433,6 +433,27 @@ def run(ctx):
                 break
         if t.fail:
             break
+    # many files: an md5sums list far beyond every read buffer, hundreds of members in the data part
+    for cext in ([] if t.fail else EXTS):
+        files = [("usr/share/pkg/file-%04d.dat" % i, b"d%d" % i) for i in range(600)]
+        md5 = {name: "%032x" % (i * 7919 + 1) for i, (name, _) in enumerate(files)}
+        md5text = "".join("%s  %s\n" % (v, k) for k, v in md5.items()).encode()
+        raw = ar([("debian-binary", b"2.0\n"), ("control.tar" + cext, tar([("control", b"Package: many\nVersion: 1\n"), ("md5sums", md5text)], cext)),
+                  ("data.tar" + cext, tar(files, cext))])
+        try:
+            deb = real.DebFile(fileobj=io.BytesIO(raw))
+            got_md5 = deb.md5sums(encoding="utf-8")
+            got_md5_b = deb.md5sums()
+            some = [deb.data.get_content(n) for n, _ in files[::97]]
+            names_ok = all(deb.data.has_file(n) for n, _ in files[::41])
+        except Exception as e:
+            t.failed("reading a package with 600 data files raised %r" % (e,), control_ext=cext)
+            break
+        t.case(key=("many files", cext))
+        if got_md5 != md5 or len(got_md5_b) != len(md5) or some != [d for _, d in files[::97]] or not names_ok:
+            t.failed("a package with 600 data files does not give back its md5sums / contents", control_ext=cext,
+                     md5_entries=len(got_md5), expected=len(md5))
+            break
     # malformed packages
     if not t.fail:
         good_c, good_d = ("control.tar.gz", tar([("control", b"Package: x\n")], ".gz")), ("data.tar.xz", tar([], ".xz"))
